@@ -314,6 +314,8 @@ def gen_geocoder(rng, n, tier="quick"):
                     exp = group_tok(r)
                 else:
                     exp = "R " + rec_tok(r)
+                    if not any(r is x for x in geo.all_locations(db)):
+                        exp += " Xnot-the-stored-object"      # "returns a stored record", not a copy
                 yield Case("lookup", "db_lookup %s %s" % (I(h), S(q)), norm(exp), {"handle": h, "name": q})
             elif k < 0.82:
                 g = rng.choice(["Europe", "europe", "EUROPE", "asia", "X", "a b", "nope", "America"])
